@@ -10,6 +10,10 @@ static float X[2*MAXN]; static int g_ret; static int g_fs[3], g_clip[3], g_k;
 int syn_native(OpusDecoder *st, const unsigned char *data, opus_int32 len, opus_res *pcm, int frame_size, int decode_fec, int self_delimited,
       opus_int32 *packet_offset, int soft_clip, const OpusDRED *dred, opus_int32 dred_offset){
   g_fs[g_k]=frame_size; g_clip[g_k]=soft_clip;
+#ifdef WITHPKT
+  /* the real decoder rejects (at least) every packet the duration helper rejects: opus_packet_parse_impl fails for a bad count byte and for > 120 ms */
+  if(data!=0 && len>0 && opus_decoder_get_nb_samples(st,data,len)<=0) return OPUS_INVALID_PACKET;
+#endif
   if(g_ret<0) return g_ret;
   if(g_ret>frame_size) return OPUS_BUFFER_TOO_SMALL;
   for(int i=0;i<2*MAXN;i++) if(i<g_ret*st->channels) pcm[i]=X[i];     /* bounds-checked against the wrapper's scratch buffer */
@@ -21,10 +25,23 @@ void harness(void){
   for(int i=0;i<2*MAXN;i++){ X[i]=vt_float(); __CPROVER_assume(X[i]>=-1.f&&X[i]<=1.f); }
   opus_int16 o16[2*MAXN+1]; opus_int32 o24[2*MAXN+1]; float of[2*MAXN+1];
   for(int i=0;i<=2*MAXN;i++){ o16[i]=12345; o24[i]=123456789; of[i]=77.f; }
-  g_k=0; int r0=opus_decode(&st,0,0,o16,fs,0);
-  g_k=1; int r1=opus_decode24(&st,0,0,o24,fs,0);
-  g_k=2; int r2=opus_decode_float(&st,0,0,of,fs,0);
+#ifdef WITHPKT
+  /* any 2-byte packet, any len 0..2, NULL or not, decode_fec 0/1: the three entry points must hand the same request to the decoder */
+  unsigned char pk[2]; pk[0]=vt_uchar(); pk[1]=vt_uchar(); int plen=vt_range(0,2); int fec=vt_range(0,1); const unsigned char *pd = &pk[0]; if(vt_range(0,1)) pd=(const unsigned char*)0;
+  st.DecControl.API_sampleRate=8000; st.DecControl.nChannelsAPI=CH; st.stream_channels=CH;
+  g_fs[0]=g_fs[1]=g_fs[2]=-99;
+#else
+  const unsigned char *pd=0; int plen=0, fec=0;
+#endif
+  g_k=0; int r0=opus_decode(&st,pd,plen,o16,fs,fec);
+  g_k=1; int r1=opus_decode24(&st,pd,plen,o24,fs,fec);
+  g_k=2; int r2=opus_decode_float(&st,pd,plen,of,fs,fec);
   VASSERT(r0==r1&&r1==r2,"same sample count / error from all three entry points");
+#ifdef WITHPKT
+  VASSERT(g_fs[0]==g_fs[1],"16-bit and 24-bit entry points pass the same frame_size to the decoder");
+  if(fs>0 && (fec || pd==0 || plen==0)) VASSERT(g_fs[0]==fs && g_fs[1]==fs && g_fs[2]==fs,"a concealment / FEC request reaches the decoder with the requested duration from every entry point");
+  if(fs>0 && g_fs[0]!=-99) VASSERT(g_fs[0]<=fs && g_fs[2]==fs,"frame_size is only ever clamped down, to the packet duration");
+#endif
   if(fs<=0) VASSERT(r0==OPUS_BAD_ARG,"non-positive frame_size rejected");
   if(r0>0){
     int i=vt_range(0,2*MAXN-1);
